@@ -20,6 +20,14 @@ if [ "${AUDIT_SKIP_TESTS:-0}" != 1 ]; then
   T=$( cd "$WT" && CARGO_TARGET_DIR="$CACHE/test-target" cargo test --workspace --no-fail-fast --offline 2>&1 | grep "test result" | head -1 )
   echo "AUDIT $NAME: tests: $T"
 fi
+# demonstration shipped with the seeded change: must fail with the change and pass without it
+DEMO_DIR=$(dirname "$PATCH")
+if [ -f "$DEMO_DIR/demo.sh" ]; then
+  ( cd "$WT" && CARGO_TARGET_DIR="$CACHE/gram-target" cargo build --release --offline >/dev/null 2>&1 )
+  ( cd "$DEMO_DIR" && sh ./demo.sh "$CACHE/gram-target/release/gram" >/dev/null 2>&1 ); WITH=$?
+  ( cd "$DEMO_DIR" && sh ./demo.sh "$VERIF/.cache/gram-target/release/gram" >/dev/null 2>&1 ); WITHOUT=$?
+  echo "AUDIT $NAME: demo: exit with change=$WITH, without=$WITHOUT"
+fi
 for ID in "$@"; do
   OUT=$( cd "$VERIF" && GRAM_REPO="$WT" GV_CACHE="$CACHE" GV_EVIDENCE_DIR="$CACHE/ev" ./check "$ID" quick 2>&1 )
   RC=$?
